@@ -5,7 +5,7 @@
 # against it. Each check must give the same verdict as on /repo (no violation).
 set -u
 export GOFLAGS=-mod=mod GOPROXY=off GOSUMDB=off GOTOOLCHAIN=local; unset GOWORK
-MODES=${*:-rename flip switch unswitch hoist fold incdec condvar elseadd elsestrip nop swap retvar argvar}
+MODES=${*:-rename flip switch unswitch hoist fold incdec condvar elseadd elsestrip nop swap retvar argvar emptystr demorgan rangeidx}
 ( cd /verif/selftest/renamer && go build -o /tmp/renamer.bin . ) || exit 2
 rc=0
 for m in $MODES; do
